@@ -58,6 +58,9 @@ type runS struct {
 	// walkLock: the walk goroutine also parks inside every queue insertion (between the
 	// visit of a leaf and its insertion); see release
 	walkLock bool
+	expMu    sync.Mutex
+	expect   map[string]bool // goroutines the code must have spawned, not yet seen at a hook
+	passed   []bool          // the subscriber went past subscribe:registered
 	walking  []bool
 	syncDone []bool
 }
@@ -80,9 +83,10 @@ func runSched(cs *Case, decide func(ready []string, k int) int) (*runS, *Obs) {
 	r := &runS{cs: cs, curSub: -1}
 	r.e = newEngine(cs, subscribe.WithTimeout(time.Minute))
 	r.sc = NewSched()
-	r.sc.HangAfter = 5 * time.Second
+	r.sc.HangAfter = 20 * time.Second
 	r.snaps = make([][]string, len(cs.Subs))
 	r.walking = make([]bool, len(cs.Subs))
+	r.passed = make([]bool, len(cs.Subs))
 	r.syncDone = make([]bool, len(cs.Subs))
 	r.walkLock = cs.WalkLock
 	r.ended = make([]bool, len(cs.Subs))
@@ -160,11 +164,23 @@ func runSched(cs *Case, decide func(ready []string, k int) int) (*runS, *Obs) {
 		}
 		switch point {
 		case "process:before-walk":
+			r.expMu.Lock()
+			delete(r.expect, fmt.Sprintf("k%d", r.curSub))
+			r.expMu.Unlock()
 			return 200 + r.curSub, fmt.Sprintf("k%d", r.curSub), true
 		case "send:before-next":
+			r.expMu.Lock()
+			delete(r.expect, fmt.Sprintf("x%d", r.curSub))
+			r.expMu.Unlock()
 			return 300 + r.curSub, fmt.Sprintf("x%d", r.curSub), true
 		}
 		return 0, "", false
+	}
+	r.expect = map[string]bool{}
+	r.sc.Pending = func() bool {
+		r.expMu.Lock()
+		defer r.expMu.Unlock()
+		return len(r.expect) > 0
 	}
 
 	for w := 0; w < cs.NW; w++ {
@@ -256,7 +272,11 @@ func runSched(cs *Case, decide func(ready []string, k int) int) (*runS, *Obs) {
 			}
 		}
 	}
-	// quiescent?
+	// finished?  positive evidence: every writer returned, every subscriber that went past
+	// its registration has its sender waiting inside Next and its walk goroutine gone
+	if r.bad == "" {
+		r.bad = r.incomplete()
+	}
 	for _, t := range r.sc.threads() {
 		if t.status == stParked && r.bad == "" {
 			r.bad = "step bound reached with threads still ready (or a walk that cannot end)"
@@ -275,6 +295,37 @@ func runSched(cs *Case, decide func(ready []string, k int) int) (*runS, *Obs) {
 	obs.Ended = append([]bool(nil), r.ended...)
 	r.endedMu.Unlock()
 	return r, obs
+}
+
+// incomplete names what is missing for the run to count as observed to its end.
+func (r *runS) incomplete() string {
+	byName := map[string]*Thread{}
+	for _, t := range r.sc.threads() {
+		byName[t.Name] = t
+	}
+	for w, ws := range r.ws {
+		if len(ws.ops) == 0 {
+			continue
+		}
+		if t := byName[fmt.Sprintf("w%d", w)]; t == nil || t.status != stDone {
+			return fmt.Sprintf("incomplete: writer %d has not returned", w)
+		}
+	}
+	for i, sc := range r.cs.Subs {
+		if !r.passed[i] {
+			return fmt.Sprintf("incomplete: subscriber %d has not registered", i)
+		}
+		x := byName[fmt.Sprintf("x%d", i)]
+		if x == nil || x.status != stBlocked {
+			return fmt.Sprintf("incomplete: the sender of subscriber %d is not waiting for data", i)
+		}
+		if !sc.UO {
+			if k := byName[fmt.Sprintf("k%d", i)]; k == nil || k.status != stDone {
+				return fmt.Sprintf("incomplete: the walk of subscriber %d is not over", i)
+			}
+		}
+	}
+	return ""
 }
 
 type feedInfo struct {
@@ -316,6 +367,17 @@ func (r *runS) release(t *Thread) {
 		}
 	case 's':
 		r.curSub = idx
+		if t.LastKind == "at" && t.LastPoint == "subscribe:registered" {
+			// Subscribe now starts its sender and (unless updates_only) its walk goroutine:
+			// the step is over only when both have reported at their first hook
+			r.expMu.Lock()
+			r.expect[fmt.Sprintf("x%d", idx)] = true
+			if !r.cs.Subs[idx].UO {
+				r.expect[fmt.Sprintf("k%d", idx)] = true
+			}
+			r.expMu.Unlock()
+			r.passed[idx] = true
+		}
 		r.trace = append(r.trace, fmt.Sprintf("s%d %s", idx, t.LastKind+t.LastPoint))
 	case 'k':
 		switch {
@@ -535,13 +597,13 @@ func runFree(cs *Case) *Obs {
 	go func() { wg.Wait(); close(wdone) }()
 	select {
 	case <-wdone:
-	case <-time.After(5 * time.Second):
-		obs.Bad = "writers did not return within 5 s"
+	case <-time.After(20 * time.Second):
+		obs.Bad = "writers did not return within 20 s"
 	}
 	// every live stream shows its sync, then every live sender is parked in Next's select
 	gone := make([]bool, len(cs.Subs))
 	waitQuiet := func() bool {
-		dl := time.Now().Add(5 * time.Second)
+		dl := time.Now().Add(20 * time.Second)
 		for obs.Bad == "" && time.Now().Before(dl) {
 			all := true
 			for i, st := range e.streams {
@@ -591,7 +653,7 @@ func runFree(cs *Case) *Obs {
 		return false
 	}
 	if !waitQuiet() && obs.Bad == "" {
-		obs.Bad = "no quiescence within 5 s"
+		obs.Bad = "no quiescence within 20 s"
 	}
 	// clients that go away, then more writes: the survivors must go on receiving
 	for _, i := range cs.Cancel {
@@ -615,7 +677,7 @@ func runFree(cs *Case) *Obs {
 		}
 	}
 	if late && !waitQuiet() && obs.Bad == "" {
-		obs.Bad = "no quiescence within 5 s after the late writes"
+		obs.Bad = "no quiescence within 20 s after the late writes"
 	}
 	modeA.Store(nil)
 	obs.Dump = e.dump()
